@@ -51,11 +51,16 @@ def run_config(cfg):
         regs[k] = mk(k)
     for k, v in cfg.get('string_keys', {}).items():
         regs[k] = v
-    mm.register_scope_providers(regs)
+    try:
+        mm.register_scope_providers(regs)
+    except Exception as e:   # an RREL string that does not parse (arpeggio NoMatch / TextXError)
+        return {'error': 'registration:' + type(e).__name__, 'log': log}
     try:
         m = mm.model_from_str(MODEL % dict(na=cfg.get('name_a', 'y'), nb=cfg.get('name_b', 'y')))
     except TextXError as e:
         return {'error': type(e).__name__ + ':' + str(getattr(e, 'err_type', None)), 'log': log}
+    except Exception as e:   # e.g. a registration value that is not callable
+        return {'error': 'OTHER:' + type(e).__name__ + ':' + str(e)[:80], 'log': log}
     out = {'log': log, 'targets': {}}
     for r in m.a + m.b:
         cls = type(r).__name__
